@@ -513,4 +513,4 @@ def _orderhash(ctx, cfg, prog, mod):
                        'ONE hasher state carried across the iterations of an unsorted sequence: the result depends on the order '
                        'in which the caller listed the vertices (seeds derived from it make the shuffled-retry / rebuild path '
                        'order-dependent under the Hilbert / Morton / lexicographic orderings)'), site=site)
-    ctx.floor('hash computations over the vertex set', 4, n, cfg)
+    ctx.floor('hash computations over the vertex set', 1, n, cfg)
